@@ -13,6 +13,7 @@ use crate::common::constant::USER_TREE_NAME;
 use crate::common::model::privilege::{PrivilegeGroup, PrivilegeGroupOptionParam};
 use crate::common::string_utils::StringUtils;
 use crate::raft::cache::{CacheManager, CacheUserChangeReq};
+use crate::raft::filestore::raftapply::{StateApplyManager, StateApplyRequest};
 use crate::user::model::UserSourceType;
 use crate::user::permission::UserRole;
 use crate::{
@@ -513,10 +514,20 @@ impl Inject for UserManager {
         self.table_manager = factory_data.get_actor();
         self.cache_manager = factory_data.get_actor();
         let raft_addr_route: Option<Arc<RaftAddrRouter>> = factory_data.get_bean();
+        let apply_manager: Option<Addr<StateApplyManager>> = factory_data.get_actor();
         ctx.run_later(Duration::from_millis(500), |act, ctx| {
             let self_addr = ctx.address();
             let table_manager = act.table_manager.clone();
             async move {
+                //the user table is filled by the start-up replay of snapshot and log; on a slow start that replay
+                //may still be running now, and an empty table would be taken for a new installation.
+                //The apply manager answers only after its start-up load has finished.
+                if let Some(apply_manager) = apply_manager {
+                    apply_manager
+                        .send(StateApplyRequest::GetLastAppliedLog)
+                        .await
+                        .ok();
+                }
                 if let Some(raft_addr_route) = raft_addr_route {
                     if let Ok(route_res) = raft_addr_route.get_route_addr().await {
                         match route_res {
